@@ -29,7 +29,7 @@ func init() { Register("c11sweep", c11Sweep) }
 
 var c11Factors = [][]string{
 	{"sample", "slow", "dataset", "datasetLatest", "union", "multi", "http"}, // source
-	{"none", "js1", "js3", "http"},                                            // transform
+	{"none", "js1", "js3", "http", "js5"},                                            // transform
 	{"dataset", "devnull", "console", "http"},                                 // sink
 	{"cron", "onchange"},                                                      // trigger
 	{"incremental", "fullsync"},                                               // job type
@@ -101,7 +101,7 @@ func (c c11Cfg) faultPlace() string {
 		return "sink-rejects-entity"
 	case c.Transform == "http":
 		return "transform-400"
-	case c.Transform == "js1" || c.Transform == "js3":
+	case strings.HasPrefix(c.Transform, "js"):
 		return "transform-throws"
 	case c.Source == "http":
 		return "source-500"
@@ -389,6 +389,8 @@ func c11JobConfig(cfg c11Cfg, id string, h *c11Hub, loop *c11Loop) map[string]an
 		transform = map[string]any{"Type": "JavascriptTransform", "Parallelism": 1, "Code": c11JS(id, 2000, place == "transform-throws")}
 	case "js3":
 		transform = map[string]any{"Type": "JavascriptTransform", "Parallelism": 3, "Code": c11JS(id, 2000, place == "transform-throws")}
+	case "js5":
+		transform = map[string]any{"Type": "JavascriptTransform", "Parallelism": 5, "Code": c11JS(id, 2000, place == "transform-throws")}
 	case "http":
 		transform = map[string]any{"Type": "HttpTransform", "Url": loop.url() + "/tr/" + id + "/" + mode("transform-400")}
 	}
@@ -427,7 +429,13 @@ func c11JobConfig(cfg c11Cfg, id string, h *c11Hub, loop *c11Loop) map[string]an
 	if handlers != nil {
 		trig["onError"] = handlers
 	}
-	job := map[string]any{"id": id, "title": id, "batchSize": 3, "source": source, "sink": sink, "triggers": []any{trig}}
+	// batch sizes that do not divide evenly among the transform workers: 4 entities for 3 workers
+	// (chunks 2,2,-), 7 for 5 (chunks 2,2,2,1,-); the tail batches give the even / smaller cases
+	bs := 4
+	if cfg.Transform == "js5" {
+		bs = 7
+	}
+	job := map[string]any{"id": id, "title": id, "batchSize": bs, "source": source, "sink": sink, "triggers": []any{trig}}
 	if transform != nil {
 		job["transform"] = transform
 	}
@@ -541,9 +549,17 @@ func c11RunOne(ctx *Ctx, cfg c11Cfg) (rerr error) {
 	}
 	// wait until at least `want` runs have given their slot back; decide what a watchdog means
 	waitEnded := func(want int, what string) bool {
-		ok := rec.waitFor(c11Watchdog, func() bool { return rec.ended >= want })
-		if ok {
-			return true
+		// the watchdog is split into slices; after each slice the STATE of the runs that have not
+		// ended is examined (goroutine dump). A run that is parked for good is a violation at once,
+		// whatever the clock says; anything else keeps waiting and ends as inconclusive.
+		for _, slice := range []time.Duration{2 * time.Second, 3 * time.Second, 5 * time.Second, 15 * time.Second} {
+			if rec.waitFor(slice, func() bool { return rec.ended >= want }) {
+				return true
+			}
+			if n := c11JudgeStuck(h, viol); n > 0 {
+				o.Stat("sweep.runs_blocked_forever", int64(n))
+				return false
+			}
 		}
 		// something is stuck: a run whose pipeline reported its outcome and whose result is stored
 		// has nothing left to do but give the slot back.
